@@ -94,6 +94,9 @@ LoadFrames(sel) == /\ Reading /\ More /\ CanLoad(hs.lv, sel)
 LookAt(m) == /\ Reading /\ More /\ m < Len(hs.lv) /\ hs.lv[m + 1].st # "cleared"
              /\ hs' = [hs EXCEPT !.lv = HAccess(hs.lv, m), !.n = @ + 1]
              /\ act' = [op |-> "look", m |-> m]
+Poke(m) == /\ Reading /\ More /\ m < Len(hs.lv) /\ hs.lv[m + 1].st # "cleared"
+           /\ hs' = [hs EXCEPT !.lv = HPoke(hs.lv, m), !.n = @ + 1]
+           /\ act' = [op |-> "poke", m |-> m]
 Compute == /\ Reading /\ More
            /\ hs' = [hs EXCEPT !.lv = HCompute(hs.lv), !.n = @ + 1]
            /\ act' = [op |-> "compute"]
@@ -116,6 +119,7 @@ Next == \/ \E w \in Sizes, h \in Sizes, n \in FrameCounts, lay \in Layers, minor
         \/ (Read /\ hs' = IF History THEN [NoHist EXCEPT !.lv = LvInit(v.mip)] ELSE NoHist)
         \/ ((\E sel \in {"top", "small", "all"} : LoadFrames(sel)) /\ UNCHANGED <<v, phase, file, out>>)
         \/ ((\E m \in 0..3 : LookAt(m)) /\ UNCHANGED <<v, phase, file, out>>)
+        \/ ((\E m \in 0..3 : Poke(m)) /\ UNCHANGED <<v, phase, file, out>>)
         \/ (Compute /\ UNCHANGED <<v, phase, file, out>>)
         \/ ((\E a \in 0..1 : Clear(a)) /\ UNCHANGED <<v, phase, file, out>>)
         \/ (Resave /\ UNCHANGED <<v, file, out>>)
@@ -164,12 +168,13 @@ Gate == phase = "read" => (v.minor >= 3 => (Len(out.c.res) = Len(v.res) /\ out.c
 Kept == phase = "reread" =>
           /\ Len(hs.out2) = v.mip
           /\ \A m \in 0..(v.mip - 1) :
-                IF hs.lv[m + 1].st = "file" THEN hs.out2[m + 1] = [base |-> m, avgs |-> 0]
-                ELSE hs.out2[m + 1] = [base |-> hs.out2[m].base, avgs |-> hs.out2[m].avgs + 1]
+                CASE hs.lv[m + 1].st = "file" -> hs.out2[m + 1] = [base |-> m, avgs |-> 0, ed |-> hs.lv[m + 1].ed]
+                  [] hs.lv[m + 1].st = "gen" -> hs.out2[m + 1] = hs.lv[m + 1].t
+                  [] OTHER -> hs.out2[m + 1] = [base |-> hs.out2[m].base, avgs |-> hs.out2[m].avgs + 1, ed |-> hs.out2[m].ed]
 LazyUnobservable == phase \in {"resaved", "reread"} =>
           hs.file2 = [j \in 1..Len(hs.lv) |-> Term([q \in 1..Len(hs.lv) |-> [hs.lv[q] EXCEPT !.loaded = FALSE]], j - 1)]
-Untouched == (phase = "reread" /\ \A j \in 1..Len(hs.lv) : hs.lv[j].st = "file") =>
-          hs.out2 = [j \in 1..v.mip |-> [base |-> j - 1, avgs |-> 0]]
+Untouched == (phase = "reread" /\ \A j \in 1..Len(hs.lv) : hs.lv[j].st = "file" /\ ~hs.lv[j].ed) =>
+          hs.out2 = [j \in 1..v.mip |-> [base |-> j - 1, avgs |-> 0, ed |-> FALSE]]
 
 View == vars
 \* the history family prints Read steps too (its paths go through them)
